@@ -137,6 +137,11 @@ b("B32", FOREIGN,
   "\t\tstore_and_forget(&mut *w, keychain_mask, &context, &sl)?;\n\t\tsl.state = SlateState::Standard3;",
   "storing the finalized tx and deleting the context extracted into a helper (appended)")
 
+b("B33", OWNER,
+  "\t\tif let Some(e) = tx.ttl_cutoff_height {\n\t\t\tif tip.0 >= e {\n\t\t\t\twallet_lock!(wallet_inst, w);\n\t\t\t\tlet parent_key_id = w.parent_key_id();\n\t\t\t\ttx::cancel_tx(&mut **w, keychain_mask, &parent_key_id, Some(tx.id), None)?;\n\t\t\t}\n\t\t}\n",
+  "\t\tlet e = match tx.ttl_cutoff_height {\n\t\t\tSome(e) => e,\n\t\t\tNone => continue,\n\t\t};\n\t\tif tip.0 < e {\n\t\t\tcontinue;\n\t\t}\n\t\twallet_lock!(wallet_inst, w);\n\t\tlet parent_key_id = w.parent_key_id();\n\t\ttx::cancel_tx(&mut **w, keychain_mask, &parent_key_id, Some(tx.id), None)?;\n",
+  "expiry walk rewritten in early-continue style")
+
 
 def _apply(mu, repo_copy):
     p = os.path.join(repo_copy, mu["file"])
